@@ -10,8 +10,23 @@ use similar::algorithms::{Compact, DiffHook, NoFinishHook, Replace};
 
 pub struct C08;
 
-pub const STACKS: [&str; 8] = ["bare", "Replace", "Compact", "Compact<Replace>", "NoFinishHook", "&mut", "Replace<NoFinishHook>", "Replace<&mut>"];
-pub const NSTACKS: u8 = 8;
+pub const STACKS: [&str; 12] = [
+    "bare",
+    "Replace",
+    "Compact",
+    "Compact<Replace>",
+    "NoFinishHook",
+    "&mut",
+    "Replace<NoFinishHook>",
+    "Replace<&mut>",
+    "Replace<Replace>",
+    "captured ops (with Replace ops) replayed through apply_to_hook into Replace",
+    "one Replace adapter used for two diffs (the second over empty ranges)",
+    "one Compact<Replace> adapter used for two diffs (the first over empty ranges)",
+];
+pub const NSTACKS: u8 = 12;
+/// mode value of the direct-call cases (hook methods called by hand)
+pub const MODE_DIRECT: u8 = 255;
 
 struct Run {
     result: Result<(), usize>,
@@ -94,7 +109,7 @@ fn run_with<H: DiffHook<Error = usize>>(c: &SeqCase, stack: u8, hook: H, get: im
             let (events, cae) = get(&h.into_inner().into_inner());
             Run { result, events, calls_after_error: cae }
         }
-        _ => {
+        7 => {
             let mut h = hook;
             let result = {
                 let mut r = Replace::new(&mut h);
@@ -103,7 +118,109 @@ fn run_with<H: DiffHook<Error = usize>>(c: &SeqCase, stack: u8, hook: H, get: im
             let (events, cae) = get(&h);
             Run { result, events, calls_after_error: cae }
         }
+        8 => {
+            // replace events arrive at a Replace adapter
+            let mut h = Replace::new(Replace::new(hook));
+            let result = algorithms::diff(alg, &mut h, old, c.old_r(), new, c.new_r());
+            let (events, cae) = get(&h.into_inner().into_inner());
+            Run { result, events, calls_after_error: cae }
+        }
+        9 => {
+            // a captured op list (it contains Replace ops) replayed into Replace<hook>
+            let ops = {
+                let mut cap = Compact::new(Replace::new(similar::algorithms::Capture::new()), old, new);
+                algorithms::diff(alg, &mut cap, old, c.old_r(), new, c.new_r()).unwrap();
+                cap.into_inner().into_inner().into_ops()
+            };
+            let mut h = Replace::new(hook);
+            let mut result = Ok(());
+            for op in &ops {
+                result = op.apply_to_hook(&mut h);
+                if result.is_err() {
+                    break;
+                }
+            }
+            if result.is_ok() {
+                result = h.finish();
+            }
+            let (events, cae) = get(&h.into_inner());
+            Run { result, events, calls_after_error: cae }
+        }
+        10 => {
+            // one adapter instance, two diffs: the case's diff, then a diff of two empty ranges
+            let mut h = Replace::new(hook);
+            let mut result = algorithms::diff(alg, &mut h, old, c.old_r(), new, c.new_r());
+            if result.is_ok() {
+                result = algorithms::diff(alg, &mut h, old, c.or.0..c.or.0, new, c.nr.0..c.nr.0);
+            }
+            let (events, cae) = get(&h.into_inner());
+            Run { result, events, calls_after_error: cae }
+        }
+        _ => {
+            let mut h = Compact::new(Replace::new(hook), old, new);
+            let mut result = algorithms::diff(alg, &mut h, old, c.or.0..c.or.0, new, c.nr.0..c.nr.0);
+            if result.is_ok() {
+                result = algorithms::diff(alg, &mut h, old, c.old_r(), new, c.new_r());
+            }
+            let (events, cae) = get(&h.into_inner().into_inner());
+            Run { result, events, calls_after_error: cae }
+        }
     }
+}
+
+/// Hook methods called by hand: a replace event of any shape (also with an empty side) reaching a
+/// hook that does not override `replace` must arrive as delete followed by insert, directly and
+/// through the forwarding wrappers.  `c.or` = (old_index, old_len), `c.nr` = (new_index, new_len).
+fn check_direct(c: &SeqCase, obs: &mut Obs) -> Verdict {
+    let (o, ol) = c.or;
+    let (n, nl) = c.nr;
+    let want = vec![Ev::Delete(o, ol, n), Ev::Insert(o, n, nl)];
+    let via = ["direct", "&mut", "NoFinishHook", "Replace (pass-through)", "&mut &mut"];
+    for (i, name) in via.iter().enumerate() {
+        let r = guard(|| {
+            let mut rec = RecorderNoReplace(Recorder::new());
+            let res = match i {
+                0 => rec.replace(o, ol, n, nl),
+                1 => {
+                    let mut r: &mut RecorderNoReplace = &mut rec;
+                    DiffHook::replace(&mut r, o, ol, n, nl)
+                }
+                2 => {
+                    let mut w = NoFinishHook::new(&mut rec);
+                    w.replace(o, ol, n, nl)
+                }
+                3 => {
+                    let mut w = Replace::new(&mut rec);
+                    w.replace(o, ol, n, nl)
+                }
+                _ => {
+                    let mut r1: &mut RecorderNoReplace = &mut rec;
+                    let mut r2 = &mut r1;
+                    DiffHook::replace(&mut r2, o, ol, n, nl)
+                }
+            };
+            (res, rec.0.events)
+        });
+        match r {
+            Ok((Ok(()), ev)) if ev == want => {}
+            Ok((res, ev)) => return Verdict::Fail(format!("replace({}, {}, {}, {}) on a hook without a replace override, called {}: result {:?}, the hook saw {:?}, expected {:?}", o, ol, n, nl, name, res, ev, want)),
+            Err(p) => return Verdict::Fail(format!("replace({}, {}, {}, {}) {}: {}", o, ol, n, nl, name, p)),
+        }
+        // the first of the two calls failing stops the second
+        let r = guard(|| {
+            let mut rec = RecorderNoReplace(Recorder::failing(0));
+            let res = rec.replace(o, ol, n, nl);
+            (res, rec.0.events.len())
+        });
+        if r != Ok((Err(0), 1)) {
+            return Verdict::Fail(format!("default replace with a failing delete: {:?}, expected Err(0) after 1 call", r));
+        }
+    }
+    obs.executions = 10;
+    obs.nontrivial = ol != nl;
+    obs.class("hook methods called by hand (default replace, forwarding wrappers)");
+    obs.class_if(ol == 0 || nl == 0, "replace event with an empty side");
+    Verdict::Pass
 }
 
 fn run(c: &SeqCase, stack: u8, overrides_replace: bool, fail_at: Option<usize>) -> Result<Run, String> {
@@ -135,6 +252,9 @@ fn expand_replace(ev: &[Ev]) -> Vec<Ev> {
 }
 
 fn check_case(c: &SeqCase, obs: &mut Obs) -> Verdict {
+    if c.mode == MODE_DIRECT {
+        return check_direct(c, obs);
+    }
     let stack = c.mode % NSTACKS;
     let overrides = (c.mode / NSTACKS) % 2 == 0;
     let name = format!(
@@ -170,9 +290,36 @@ fn check_case(c: &SeqCase, obs: &mut Obs) -> Verdict {
             }
             Err(p) => return Verdict::Fail(format!("bare run: {}", p)),
         }
+    } else if stack >= 10 {
+        // two diffs through one adapter: the log is the log of each diff through a fresh adapter,
+        // one after the other (so finish twice: at the end of each)
+        let single = |empty: bool| -> Result<Vec<Ev>, String> {
+            let mut c2 = c.clone();
+            if empty {
+                c2.or = (c.or.0, c.or.0);
+                c2.nr = (c.nr.0, c.nr.0);
+            }
+            run(&c2, if stack == 10 { 1 } else { 3 }, overrides, None).map(|r| r.events)
+        };
+        match (single(stack == 11), single(stack == 10)) {
+            (Ok(mut a), Ok(b)) => {
+                a.extend(b);
+                if a != log {
+                    return Verdict::Fail(format!("{}: log {:?} != the two diffs through fresh adapters, one after the other {:?}", name, log, a));
+                }
+            }
+            (Err(p), _) | (_, Err(p)) => return Verdict::Fail(format!("{}: {}", name, p)),
+        }
     } else {
         if fin != 1 || log.last() != Some(&Ev::Finish) {
             return Verdict::Fail(format!("{}: finish must be called exactly once and last; log {:?}", name, log));
+        }
+    }
+    if stack == 8 {
+        match run(c, 1, overrides, None) {
+            Ok(r) if r.events == log => {}
+            Ok(r) => return Verdict::Fail(format!("{}: calls through Replace<Replace<hook>> {:?} != Replace<hook> {:?}", name, log, r.events)),
+            Err(p) => return Verdict::Fail(format!("Replace run: {}", p)),
         }
     }
     if stack == 6 {
@@ -266,6 +413,21 @@ fn strat(tier: Tier) -> BoxedStrategy<SeqCase> {
     .boxed()
 }
 
+fn enum_direct(_tier: Tier, f: &mut dyn FnMut(SeqCase) -> bool) {
+    for o in 0..3usize {
+        for ol in 0..4usize {
+            for n in 0..3usize {
+                for nl in 0..4usize {
+                    let c = SeqCase { alg: 0, old: vec![], new: vec![], or: (o, ol), nr: (n, nl), mode: MODE_DIRECT, k: None };
+                    if !f(c) {
+                        return;
+                    }
+                }
+            }
+        }
+    }
+}
+
 fn enum_small(tier: Tier, f: &mut dyn FnMut(SeqCase) -> bool) {
     let seqs = all_seqs(2, tier.pick(4, 5));
     for a in &seqs {
@@ -314,7 +476,7 @@ impl Prop for C08 {
     const ID: &'static str = "C08";
     const LEVEL: &'static str = "fault_enumeration";
     fn rule() -> String {
-        "cases = (algorithm, old, new, ranges, adapter stack in {bare, Replace, Compact, Compact<Replace>, NoFinishHook, &mut, Replace<NoFinishHook>, Replace<&mut>}, hook flavour in {overrides replace, default replace}, deadline in {none, virtual clock expiring at probe 0, 1, 3}); for each case the success log is recorded and then EVERY call index k of that log is made to fail in a separate execution (fault enumeration; 'executions' counts them). Oracle: finish exactly once and last (never through NoFinishHook, which otherwise forwards the bare run unchanged); failing call k => diff returns exactly Err(k), the hook saw exactly k+1 calls and they are the first k+1 calls of the success log; default-replace log == overriding log with replace expanded to delete+insert. Non-trivial = success log has >= 3 calls incl. a change; distinct = distinct serialized case.".into()
+        "cases = (algorithm, old, new, ranges, adapter stack in {bare, Replace, Compact, Compact<Replace>, NoFinishHook, &mut, Replace<NoFinishHook>, Replace<&mut>, Replace<Replace>, a captured op list with Replace ops replayed through DiffOp::apply_to_hook into Replace, ONE Replace / Compact<Replace> adapter instance used for two diffs one of which is over empty ranges}, hook flavour in {overrides replace, default replace}, deadline in {none, virtual clock expiring at probe 0, 1, 3}); for each case the success log is recorded and then EVERY call index k of that log is made to fail in a separate execution (fault enumeration; 'executions' counts them). Oracle: finish exactly once and last (never through NoFinishHook, which otherwise forwards the bare run unchanged); failing call k => diff returns exactly Err(k), the hook saw exactly k+1 calls and they are the first k+1 calls of the success log; default-replace log == overriding log with replace expanded to delete+insert; two diffs through one adapter == the two diffs through fresh adapters one after the other; a stage of hook methods called by hand: replace(o,ol,n,nl) incl. empty sides on a hook without override == delete then insert, directly and through &mut / NoFinishHook / Replace. Non-trivial = success log has >= 3 calls incl. a change; distinct = distinct serialized case.".into()
     }
     fn assumptions() -> Vec<String> {
         vec!["the failing hook returns its call index as the error value, so 'precisely that error' is checked by value".into()]
@@ -324,9 +486,17 @@ impl Prop for C08 {
             Stage {
                 name: "enum-small",
                 kind: StageKind::Enumerate {
-                    scope: format!("all (old,new) over {{0,1}} with lengths <= {} x 3 algorithms x 8 stacks x 2 hook flavours x 4 deadline variants x every failing call index", tier.pick(4, 5)),
+                    scope: format!("all (old,new) over {{0,1}} with lengths <= {} x 3 algorithms x 12 stacks x 2 hook flavours x 4 deadline variants x every failing call index", tier.pick(4, 5)),
                     exhaustive: true,
                     gen: enum_small,
+                },
+            },
+            Stage {
+                name: "direct-calls",
+                kind: StageKind::Enumerate {
+                    scope: "replace(o, ol, n, nl) for o, n in 0..3 and ol, nl in 0..4 (empty sides included) called by hand on a hook without a replace override: directly, through &mut, &mut &mut, NoFinishHook and Replace".into(),
+                    exhaustive: true,
+                    gen: enum_direct,
                 },
             },
             Stage {
